@@ -649,7 +649,7 @@ static void fault_points(struct vthread *t)
 	if(P.clk_jump_rate > 0) {
 		int v = 0;
 		if(!G.replay && !G.fair_only && (int64_t)prng_below(r, 100000) < P.clk_jump_rate)
-			v = 1 + (int)prng_below(r, 6);
+			v = 1 + (int)prng_below(r, 7);
 		v = sim_commit(DK_CLOCK, 8, v);
 		if(v) {
 			static const uint64_t jumps[] = {0, 1, 50, 1000, 100000, 5000000, 3600000000ULL, 7};
